@@ -158,6 +158,24 @@ def run(tier, mode):
         for a in r.sample(ATTRS, k):
             toks.append(token(a, r.choice(domain(a) + ([0, -3, 17] if a in INTS else []))))
         texts.append(r.choice([',', ';', ', ', ' ; ']).join(toks))
+    # blanks in a config string never matter (the code deletes every `\s` character first): the same settings written with blanks of any kind --
+    # ASCII or not -- around the separators and names give the same configuration (decided on the code itself)
+    BLANKS = [' ', '\t', '\n', '\r', '\x0b', '\x0c', '\x1c', '\x1f', '\x85', '\xa0', '\u1680', '\u2003', '\u2009', '\u2028', '\u2029', '\u202f', '\u205f', '\u3000']
+    for _ in range(60 if tier == 'quick' else 600):
+        toks = [token(a, r.choice(domain(a))) for a in r.sample(ATTRS, r.randint(1, 5))]
+        plain = ','.join(toks)
+        b = lambda: ''.join(r.choice(BLANKS) for _ in range(r.randint(0, 2)))
+        blanked = b() + (b() + ',' + b()).join(toks) + b()
+        c1, c2 = H.call(Config, plain), H.call(Config, blanked)
+        n_or += 2
+        bump('blanks')
+        v1 = c1 if isinstance(c1, H.Exn) else cfg_vals(c1)
+        v2 = c2 if isinstance(c2, H.Exn) else cfg_vals(c2)
+        if repr(v1) != repr(v2):
+            fail('config_blanks', {'plain': plain, 'blanked': blanked}, v2, v1)
+        elif blanked != plain:
+            nontriv.add(('blanks', blanked))
+        texts.append(blanked)
     for t in texts:
         c = H.call(Config, t)
         ev = c if isinstance(c, H.Exn) else cfg_vals(c)
